@@ -187,8 +187,12 @@ def load_known():
 
 def _call(args):
     fn, unit = args
+    import contextlib
+    import io
     try:
-        return fn(unit)
+        # parglare prints its tables on conflicts; keep the check's stdout for verdict lines
+        with contextlib.redirect_stdout(io.StringIO()):
+            return fn(unit)
     except Exception:
         return {"harness_error": traceback.format_exc(), "unit": repr(unit)[:300]}
 
